@@ -498,7 +498,33 @@ pub fn all_seeds() -> Vec<Seed> {
     v.push(seed_big_buffer(QA));
     v.extend(straddle_seeds());
     v.push(seed_many_files(7));
+    v.push(seed_many_files(18));
+    v.push(seed_many_queues());
     v.extend(all_dead_seeds());
     v.push(seed_collected());
     v
+}
+
+/// Thirty-two queues, all of them empty except a (two records in file 0); cursor in file 1: a
+/// truncate of a triggers a GC that has to write dozens of position entries (several files' worth
+/// in the 64-byte geometry).
+pub fn seed_many_queues() -> Seed {
+    let mut p = Planner::new();
+    p.push(Op::Create(QA)).push(Op::Create(QB)).push(Op::Create(QF));
+    for i in 0..NUM_EXTRA_QUEUES {
+        p.push(Op::Create((4 + i) as u8));
+    }
+    p.push(s3(QA)).push(s3(QA));
+    let next_file = (p.cur / FILE + 1) * FILE;
+    p.fill_to(next_file + BLOCK);
+    p.push(Op::Trunc { q: QF, at: Tr::Last });
+    let mut s = p.seed("many-queues:32 queues, a@early file");
+    s.predicted_cursor = None;
+    s
+}
+
+/// `all_seeds` without the two seeds whose images / GC passes are an order of magnitude larger
+/// (18 files, 32 queues): for the engines that enumerate crash points or faults per image.
+pub fn all_seeds_light() -> Vec<Seed> {
+    all_seeds().into_iter().filter(|s| !s.name.starts_with("many-queues") && !s.name.starts_with("many-files:b@0,a@0..17")).collect()
 }
